@@ -300,9 +300,31 @@ func (r *customController) executeLuaForCanary(spec Data, strategy *v1beta1.Traf
 		if err != nil {
 			return Data{}, err
 		}
+		// An empty Lua table is encoded as JSON null. An API server prunes null fields of a
+		// custom resource with a structural schema on write, so keeping them here would make
+		// compareAndUpdateObject see a difference (and update) on every call.
+		pruneNullFields(obj.Spec)
 		return obj, nil
 	}
 	return Data{}, fmt.Errorf("expect table output from Lua script, not %s", returnValue.Type().String())
+}
+
+// pruneNullFields removes null-valued fields from (nested) objects in place.
+func pruneNullFields(v interface{}) {
+	switch x := v.(type) {
+	case map[string]interface{}:
+		for k, e := range x {
+			if e == nil {
+				delete(x, k)
+			} else {
+				pruneNullFields(e)
+			}
+		}
+	case []interface{}:
+		for _, e := range x {
+			pruneNullFields(e)
+		}
+	}
 }
 
 func (r *customController) getLuaScript(ctx context.Context, ref v1beta1.ObjectRef) (string, error) {
